@@ -28,6 +28,21 @@ package obykeyset
 //@   before localcachedmap.LocalCachedMap.GetOrCreate: assert[recovered-queue-id-is-the-joined-tuple] len(keys) == len(keyFields) && joinedof(pipelineID, joinpos, keys, 44, len(keys))
 //@   before localcachedmap.LocalCachedMap.GetOrCreate: assert[recovered-keys-are-separator-free] forall k int :: 0 <= k && k < len(keys) ==> nosep(keys[k], 44)
 
+// ---- start-up / reload: the queue ids found for EVERY output-buffer pair are handed to NewOrchestrator, so that the chunks
+// queued by the previous pipelines are taken over (C17). Per iteration of the pair loop: all ids listed for this pair are
+// recorded and no recorded id is lost; at the call the argument holds every recorded id.
+//@ extern func (c bconfig.ChunkBufferConfig) ListBufferIDs(parentLogger logger.Logger, matchChunkID func(string) bool, metricCreator promreg.MetricCreator) []string
+//@   modifies nothing
+//@ func (cfg *Config) StartOrchestrator(parentLogger logger.Logger, args bconfig.PipelineArgs, metricCreator promreg.MetricCreator) base.Orchestrator
+//@   property C17 C06
+//@   flag nosafety noinfer
+//@   modifies everything
+//@   loop 1: step[queue-ids-of-this-pair-are-all-recorded] forall j int :: 0 <= j && j < len(ids) ==> rawhas(initialPipelineIDs, key(ids[j]))
+//@   loop 1: step[recorded-queue-ids-are-kept] forall k int :: prev(rawhas(initialPipelineIDs, k)) ==> rawhas(initialPipelineIDs, k)
+//@   loop 2: invariant -1 <= rangeindex#2 && forall j int :: 0 <= j && j <= rangeindex#2 && j < len(ids) ==> rawhas(initialPipelineIDs, key(ids[j]))
+//@   loop 2: invariant forall k int :: atentry(rawhas(initialPipelineIDs, k)) ==> rawhas(initialPipelineIDs, k)
+//@   before obykeyset.NewOrchestrator: assert[every-recorded-queue-id-is-handed-to-the-orchestrator] forall k int :: rawhas(initialPipelineIDs, k) ==> exists j int :: 0 <= j && j < len(arg6) && key(arg6[j]) == k
+
 // ==== per-connection buffers towards the pipelines (C05: arrival order; C01: nothing is left behind by a flush) ===================
 // Append keeps arrival order (the record becomes the last pending one, everything before it stays); Flush hands over a
 // copy of exactly the pending records, in order, as ONE message on the pipeline's FIFO channel (or reports a BUG after the
